@@ -65,7 +65,8 @@ def required_cells(tier):
     cells += ["wd:root", "wd:build-inside", "wd:build-outside", "skip:missing/first", "skip:missing/middle", "skip:missing/last",
               "skip:object", "skip:link", "skip:empty-command", "skip:empty-arguments", "skip:blank-command", "relative-I-missing-in-build-dir", "unnamed-file-unattributed",
               "gcc-confirmed", "class:grid", "class:random", "same-spelling-different-build-dirs", "forced-include:rel",
-              "forced-include:abs", "forced-include:dots", "search-dir-with-blank:command", "search-dir-with-blank:arguments"]
+              "forced-include:abs", "forced-include:dots", "search-dir-with-blank:command", "search-dir-with-blank:arguments",
+              "header-compiled-on-its-own", "compiled-files-excluded-by-pattern"]
     return cells
 
 
@@ -95,7 +96,7 @@ def spell(path, wd, style):
     raise ValueError(style)
 
 
-def make_entry(root, base, src, wd_kind, dstyle, fstyle, istyle, defines=(), form="arguments", pre=None):
+def make_entry(root, base, src, wd_kind, dstyle, fstyle, istyle, defines=(), form="arguments", pre=None, extra=()):
     """One correct database entry for source `src` (root-relative) compiled in working directory wd_kind."""
     wd = {"absent": root, "root": root, "build-inside": os.path.join(root, "build"),
           "build-deep": os.path.join(root, "build", "deep"), "build-outside": os.path.join(base, "outbuild")}[wd_kind]
@@ -117,6 +118,9 @@ def make_entry(root, base, src, wd_kind, dstyle, fstyle, istyle, defines=(), for
     if pre:
         # forced include spelled for a process running in wd (a compiler looks there first)
         argv += ["-include", spell(os.path.join(root, "cfg", "pre.h"), wd, pre)]
+    if src.endswith(".h") and not any(x.startswith("-x") for x in extra):
+        extra = list(extra) + ["-x", "c-header"]           # a header compiled on its own (precompiled header), as CMake emits
+    argv += list(extra)
     argv += ["-c", fsp]
     e = {"file": fsp}
     if wd_kind != "absent":
@@ -149,7 +153,15 @@ SKIPS = {
 
 def gcc_truth(meta):
     """Run gcc in the entry's directory with the command as written; returns set of live markers or None."""
-    argv = [a for a in meta["argv"][1:] if a != "-c"]
+    argv = []
+    skip = False
+    for a in meta["argv"][1:]:
+        if skip:
+            skip = False
+        elif a == "-o":
+            skip = True          # the output file of the real command is irrelevant for -E to stdout
+        elif a != "-c":
+            argv.append(a)
     rc, out, err = gcc.run(gcc.BASE + ["-P"] + argv, cwd=meta["wd"])
     if rc != 0 or err.strip():
         return None, err
@@ -178,6 +190,8 @@ def check_db(ctx, base, root, entries, metas, skips, cls):
         if m:
             if m.get("pre"):
                 cells.add("forced-include:" + m["pre"])
+            if "c-header" in " ".join(m["argv"]):
+                cells.add("header-compiled-on-its-own")
             if m["src"] == "src/d.c":
                 cells.add("search-dir-with-blank:" + ("command" if "command" in entries[metas.index(m)] else "arguments"))
             cells.add("directory:" + m["dstyle"])
@@ -247,6 +261,18 @@ def check_db(ctx, base, root, entries, metas, skips, cls):
                                          "expected_used": mk in live, "observed_used": used})
                 if "cbi_m_u_1" not in live:
                     cells.add("unnamed-file-unattributed")
+                # the same analysis with every compiled file excluded from the code base by pattern: the entries are
+                # still preprocessed, so what they include keeps its attribution
+                state2, _ = cbi.run_find(root, {"p": conf}, exclude_patterns=["/src/", "/lnk"])
+                cells.add("compiled-files-excluded-by-pattern")
+                for mk, (rel, ln) in ml.items():
+                    if rel.startswith("src/"):
+                        continue
+                    p = os.path.join(root, rel)
+                    used = ln in cbi.used_lines(state2, p, "p") if state2.get_tree(p) is not None else False
+                    if used != (mk in live):
+                        problems.append({"kind": "attribution-vs-gcc with the compiled files excluded by pattern", "marker": mk, "file": rel,
+                                         "line": ln, "expected_used": mk in live, "observed_used": used})
             except Exception as e:
                 problems.append({"kind": "find-raises", "observed": f"{type(e).__name__}: {e}"})
     if problems:
@@ -268,7 +294,7 @@ def run_shard(ctx):
     idx = 0
     # E: spelling grid for single entries
     for src, wd_kind, dstyle, fstyle, istyle, form in itertools.product(
-            ["src/a.c", "src/sub/b.c", "src/d.c"], ["absent", "root", "build-inside", "build-deep", "build-outside"],
+            ["src/a.c", "src/sub/b.c", "src/d.c", "inc/h.h"], ["absent", "root", "build-inside", "build-deep", "build-outside"],
             ["abs", "rel", "dots"], ["abs", "rel", "dots", "via-link"], ["abs", "rel", "dots"], ["arguments", "command"]):
         if wd_kind == "absent" and dstyle != "abs":
             continue
@@ -361,10 +387,11 @@ def run_shard(ctx):
             else:
                 wd_kind = rng.choice(["absent", "root", "build-inside", "build-deep", "build-outside"])
                 dstyle = "abs" if wd_kind in ("absent", "build-outside") else rng.choice(["abs", "rel", "dots"])
-                e, m = make_entry(root, base, rng.choice(["src/a.c", "src/sub/b.c", "src/c.cpp", "src/d.c"]), wd_kind, dstyle,
+                e, m = make_entry(root, base, rng.choice(["src/a.c", "src/sub/b.c", "src/c.cpp", "src/d.c", "inc/h.h"]), wd_kind, dstyle,
                                   rng.choice(["abs", "rel", "dots", "via-link"]), rng.choice(["abs", "rel", "dots"]),
                                   defines=rng.choice([[], ["X"], ["X=1", "Y"]]), form=rng.choice(["arguments", "command"]),
-                                  pre=rng.choice([None, None, "rel", "abs", "dots"]))
+                                  pre=rng.choice([None, None, "rel", "abs", "dots"]),
+                                  extra=rng.choice([(), (), ("-x", "c"), ("-xc",), ("-x", "c-header"), ("-O2", "-o", "out.o")]))
                 es.append(e)
                 ms.append(m)
         if ctx.mine(i):
